@@ -12,6 +12,7 @@ import (
 	"time"
 
 	dtls "github.com/pion/dtls/v3"
+	"github.com/pion/dtls/v3/zzverif/refimpl"
 	"github.com/pion/dtls/v3/zzverif/world"
 )
 
@@ -110,6 +111,55 @@ func (p *progressSink) note(caseID string, in *input, i, n int) {
 	}
 	line += strings.Repeat(" ", 510-len(line)) + "\n"
 	_, _ = p.f.WriteAt([]byte(line), 0)
+}
+
+// stormGuard bounds what ONE injected datagram may cause: more than stormLimit emissions at one fake
+// instant is an emission storm (a library goroutine looping). The loop cannot be stopped from outside and
+// the bubble would never settle again, so the process ends here: a child reports it on stdout and exits
+// (the parent turns that into a violation under the check's own key); a worker panics with a fixed text
+// (the driver reports the journalled case).
+const stormLimit = 200
+
+type stormGuard struct {
+	mu     sync.Mutex
+	armed  bool
+	n      int
+	caseID string
+	in     *input
+}
+
+var storm stormGuard
+
+func (s *stormGuard) arm(caseID string, in *input) {
+	s.mu.Lock()
+	s.armed, s.n, s.caseID, s.in = true, 0, caseID, in
+	s.mu.Unlock()
+}
+
+func (s *stormGuard) disarm() {
+	s.mu.Lock()
+	s.armed = false
+	s.mu.Unlock()
+}
+
+func (s *stormGuard) onEmit(d *world.Datagram) {
+	s.mu.Lock()
+	if !s.armed {
+		s.mu.Unlock()
+		return
+	}
+	s.n++
+	over := s.n > stormLimit
+	caseID, in := s.caseID, s.in
+	s.mu.Unlock()
+	if !over {
+		return
+	}
+	if progress.child {
+		fmt.Fprintf(os.Stdout, "\n%s STORM %d emissions after one injected datagram: %s\n", childTag, stormLimit, world.Describe(d.Data))
+		os.Exit(3)
+	}
+	panic(fmt.Sprintf("C08 emission-storm: one injected datagram caused more than %d emissions at one fake instant (case %s input %s)", stormLimit, caseID, descOf(in)))
 }
 
 // peek is the cheap private-state read used after every injection (bounds and liveness).
@@ -299,6 +349,10 @@ func (r *runner) genInfo(cx *ctx) *genInfo {
 		gi.cur = uint16(vs.HSRecv)
 	}
 	gi.epochNow = vs.RemoteEpoch
+	gi.victimEst = established(cx.victim)
+	if su, ok := refimpl.SuiteByID(vs.SuiteID); ok && vs.HasSuite {
+		gi.cbc = su.Kind == refimpl.KindCBC
+	}
 	victimAddr := cx.victim.Addr
 	gi.toVictim = func(d *world.Datagram) bool { return d.Dst == victimAddr }
 	gi.fg = newForger(cx)
@@ -325,6 +379,7 @@ func (r *runner) segment(list []*input, from int, single bool) int {
 			return
 		}
 		pr, victim, peer := cx.pr, cx.victim, cx.peer
+		w.OnEmit = storm.onEmit
 		var fg *forger
 		baseID := w.EmittedCount()
 		rl := &readerLog{}
@@ -338,6 +393,7 @@ func (r *runner) segment(list []*input, from int, single bool) int {
 		tr.Visit(pr.StateString(cx.n), "init")
 		lastPeek := lightPeek(victim)
 		dead := false
+		visits := 0
 		usedForger := false
 		allMustSurvive := true
 		var lastIn *input
@@ -372,8 +428,10 @@ func (r *runner) segment(list []*input, from int, single bool) int {
 			if r.verbose {
 				w.Logf("INJECT %s [%s %s] %s %s", in.id(), in.class, in.verdict, in.desc, clipHex(data, 48))
 			}
+			storm.arm(caseID, in)
 			w.Push(peer.Addr, victim.Addr, data)
 			w.Settle()
+			storm.disarm()
 			r.res.injected++
 			r.res.classes[in.class]++
 			lastIn = in
@@ -392,7 +450,11 @@ func (r *runner) segment(list []*input, from int, single bool) int {
 			hsDone, hsErr := victim.HS.Result()
 			dead = pk.closed || (hsDone && hsErr != nil)
 			if pk != lastPeek {
-				tr.Visit(pr.StateString(cx.n), "inject:"+in.class)
+				// state digests are for the evidence counts only: bounded per association (they cost a full snapshot)
+				if visits < 24 || pk.closed != lastPeek.closed {
+					tr.Visit(pr.StateString(cx.n), "inject:"+in.class)
+					visits++
+				}
 				lastPeek = pk
 			}
 			status := "alive"
